@@ -1199,7 +1199,9 @@ class CompilerPassGatherCode(CompilerPass):
 
         for line_num, line in enumerate(new_code):
             for label, target_line in label_map.items():
-                pattern = r"\b{}\b".format(re.escape(label))
+                # whole operand tokens only: "\b" also matches inside dotted
+                # labels (update / update.display) and inside HASH("...")
+                pattern = r"(?<!\S){}(?!\S)".format(re.escape(label))
                 if re.search(pattern, line):
                     if relative_numbers:
                         offset = target_line - line_num
